@@ -55,10 +55,20 @@ func (E *Engine) declSums() {
 	D.Axiom("(forall ((n Int) (D (Array Int Str)) (A (Array Int Int)) (d Str)) (! (=> (< (bsum n D A d) 0) (let ((w (bsum_neg n D A d))) (and (<= 0 w) (< w n) (< (select A w) 0)))) :pattern ((bsum n D A d))))")
 	// monotone in the length for non-negative amounts (witness for a negative amount otherwise)
 	D.Fun("bsum_mono", []Sort{SInt, SInt, sArrIS, sArrII, SStr}, SInt)
-	D.Axiom("(forall ((n Int) (k Int) (D (Array Int Str)) (A (Array Int Int)) (d Str)) (! (=> (and (<= n k) (> (bsum n D A d) (bsum k D A d))) (let ((w (bsum_mono n k D A d))) (and (<= n w) (< w k) (< (select A w) 0)))) :pattern ((bsum n D A d) (bsum k D A d))))")
+	D.Axiom("(forall ((n Int) (k Int) (D (Array Int Str)) (A (Array Int Int)) (d Str)) (! (=> (and (<= n k) (> (bsum n D A d) (bsum k D A d))) (let ((w (bsum_mono n k D A d))) (and (<= n w) (< w k) (< (select A w) 0)))) :pattern ((bsum_mono n k D A d))))")
 	// element bound: a prefix plus the next element never exceeds a longer prefix (non-negative amounts)
 	D.Fun("bsum_el", []Sort{SInt, SInt, sArrIS, sArrII, SStr}, SInt)
 	D.Axiom("(forall ((n Int) (k Int) (D (Array Int Str)) (A (Array Int Int)) (d Str)) (! (=> (and (<= 0 n) (< n k) (> (+ (bsum n D A d) (ite (= (select D n) d) (select A n) 0)) (bsum k D A d))) (let ((w (bsum_el n k D A d))) (and (< n w) (< w k) (< (select A w) 0)))) :pattern ((bsum n D A d) (bsum k D A d))))")
+	// linearity and point-wise order (witness forms)
+	D.Fun("bsum_lin", []Sort{SInt, sArrIS, sArrII, sArrII, sArrII}, SInt)
+	D.Axiom("(forall ((n Int) (D (Array Int Str)) (A (Array Int Int)) (B (Array Int Int)) (C (Array Int Int)) (d Str)) (! (=> (not (= (bsum n D A d) (- (bsum n D B d) (bsum n D C d)))) (let ((w (bsum_lin n D A B C))) (and (<= 0 w) (< w n) (not (= (select A w) (- (select B w) (select C w))))))) :pattern ((bsum_lin n D A B C) (bsum n D A d))))")
+	D.Fun("bsum_le", []Sort{SInt, sArrIS, sArrII, sArrII, SStr}, SInt)
+	D.Axiom("(forall ((n Int) (D (Array Int Str)) (A (Array Int Int)) (B (Array Int Int)) (d Str)) (! (=> (> (bsum n D A d) (bsum n D B d)) (let ((w (bsum_le n D A B d))) (and (<= 0 w) (< w n) (> (select A w) (select B w))))) :pattern ((bsum_le n D A B d))))")
+	D.Fun("hint", []Sort{SInt}, SBool)
+	D.Axiom("(forall ((x Int)) (! (hint x) :pattern ((hint x))))")
+	// slarr(f, A)[j] = floor(f * A[j]): the per-entry slash amounts
+	D.Fun("slarr", []Sort{SDec, sArrII}, sArrII)
+	D.Axiom("(forall ((f Dec) (A (Array Int Int)) (j Int)) (! (= (select (slarr f A) j) (dtrunc (dmulint f (select A j)))) :pattern ((select (slarr f A) j))))")
 	// per-account variant: entries whose delegator string is acc_str(a)
 	D.Axiom("(forall ((D (Array Int Str)) (G (Array Int Str)) (A (Array Int Int)) (a Bytes) (d Str)) (! (= (bsumA 0 D G A a d) 0) :pattern ((bsumA 0 D G A a d))))")
 	D.Axiom("(forall ((n Int) (D (Array Int Str)) (G (Array Int Str)) (A (Array Int Int)) (a Bytes) (d Str)) (! (=> (>= n 0) (= (bsumA (+ n 1) D G A a d) (+ (bsumA n D G A a d) (ite (and (= (select D n) d) (= (select G n) (acc_str a))) (select A n) 0)))) :pattern ((bsumA (+ n 1) D G A a d))))")
@@ -201,6 +211,35 @@ func init() {
 	ghostFuns["bsum"] = func(ev *Evaluator, a []*Term) Val {
 		ev.E.declBucketSums(ev.M)
 		return App(SInt, "bsum", a...)
+	}
+	// use_le / use_lin: name the witness term of a list-sum lemma so that the lemma instance is available
+	ghostFuns["use_le"] = func(ev *Evaluator, a []*Term) Val {
+		ev.E.declBucketSums(ev.M)
+		return App(SBool, "hint", App(SInt, "bsum_le", a...))
+	}
+	ghostFuns["use_el"] = func(ev *Evaluator, a []*Term) Val {
+		ev.E.declBucketSums(ev.M)
+		return App(SBool, "hint", App(SInt, "bsum_el", a...))
+	}
+	ghostFuns["use_mono"] = func(ev *Evaluator, a []*Term) Val {
+		ev.E.declBucketSums(ev.M)
+		return App(SBool, "hint", App(SInt, "bsum_mono", a...))
+	}
+	ghostFuns["use_diff"] = func(ev *Evaluator, a []*Term) Val {
+		ev.E.declBucketSums(ev.M)
+		return App(SBool, "hint", App(SInt, "bsum_diff", a...))
+	}
+	ghostFuns["use_diffA"] = func(ev *Evaluator, a []*Term) Val {
+		ev.E.declBucketSums(ev.M)
+		return App(SBool, "hint", App(SInt, "bsumA_diff", a...))
+	}
+	ghostFuns["use_lin"] = func(ev *Evaluator, a []*Term) Val {
+		ev.E.declBucketSums(ev.M)
+		return App(SBool, "hint", App(SInt, "bsum_lin", a...))
+	}
+	ghostFuns["slarr"] = func(ev *Evaluator, a []*Term) Val {
+		ev.E.declBucketSums(ev.M)
+		return App(Sort(sArrII), "slarr", a...)
 	}
 	ghostFuns["bsumA"] = func(ev *Evaluator, a []*Term) Val {
 		ev.E.declBucketSums(ev.M)
